@@ -37,6 +37,8 @@ def _secret_assigns(g):
             tg = []
             for t in n.ast.targets:
                 tg += [attr_chain(e) for e in (t.elts if isinstance(t, ast.Tuple) else [t])]
+            tg = [("self.session." + x.rsplit(".", 1)[1]) if x and x.rsplit(".", 1)[-1] in
+                  ("cl_app_secret", "sr_app_secret") and "." in x else x for x in tg]
             if any(x in SEC for x in tg):
                 out.append((n, tg))
     return out
@@ -50,12 +52,14 @@ def _stores_result(g, asg, fname):
     if len(calls) != 1:
         return False
     c = calls[0].ast
-    if [norm(a) for a in c.value.args] != ["self.session.cipherSuite"] + list(SEC):
+    args = [norm(a) for a in c.value.args]
+    if len(args) != 3 or not (args[0].endswith(".cipherSuite") and args[1].endswith(".cl_app_secret")
+                              and args[2].endswith(".sr_app_secret")):
         return False
     if not (len(c.targets) == 1 and isinstance(c.targets[0], ast.Tuple) and len(c.targets[0].elts) == 2):
         return False
     t0, t1 = (attr_chain(e) for e in c.targets[0].elts)
-    if [t0, t1] == list(SEC):
+    if t0 and t1 and t0.endswith(".cl_app_secret") and t1.endswith(".sr_app_secret"):
         return len(asg) == 1
     # through locals
     got = {}
